@@ -6,7 +6,7 @@
    the correspondence on 1..3 handles per file, and against os.File by the oracle).
    [ready h] = the handle has loaded its data without error and is not closed (true after its first
    operation when the store does not fail). *)
-From HP Require Import Base.Prelude Base.Path KV.Types KV.FS KV.Handle KV.Run KV.HandleProofs.
+From HP Require Import Base.Prelude Base.Path KV.Types KV.FS KV.Handle KV.Run KV.HandleProofs KV.OffsetProofs.
 Open Scope N_scope.
 
 (* ReadAt/Read: exactly the file's current bytes at the offset; EOF iff the end was reached. *)
@@ -81,6 +81,21 @@ Theorem C02_directory_read_refuted :
   snd (hstep st 0%nat (HRead 4)) = HRBytes [] (Some (Bare EEOF)).
 Proof. vm_compute. reflexivity. Qed.
 Print Assumptions C02_directory_read_refuted.
+
+(* "leaves the same offset": in EVERY state, ReadAt, WriteAt, Truncate, Stat, Chmod, Sync and Close never move the
+   handle's position (a shrinking Truncate does not clamp it) ... *)
+Theorem C02_positional_calls_keep_the_offset : forall st i o,
+  positional o = true -> off_at (fst (hstep st i o)) i = off_at st i.
+Proof. exact positional_calls_keep_the_offset. Qed.
+Print Assumptions C02_positional_calls_keep_the_offset.
+
+(* ... and Read advances it by exactly the bytes it delivered (an empty failing read leaves it alone). *)
+Theorem C02_read_advances_by_the_bytes_returned : forall st i len h d e,
+  nth_error (st_handles st) i = Some h -> snd (hstep st i (HRead len)) = HRBytes d e ->
+  off_at (fst (hstep st i (HRead len))) i = Some (h_off h + Z.of_nat (length d))%Z \/
+  (d = [] /\ off_at (fst (hstep st i (HRead len))) i = Some (h_off h)).
+Proof. exact read_advances_by_the_bytes_returned. Qed.
+Print Assumptions C02_read_advances_by_the_bytes_returned.
 
 (* Non-vacuity: two handles on one file; what the first writes the second reads. *)
 Example C02_two_handles_coherent :
